@@ -527,9 +527,10 @@ impl<'a> Namespace<'a> {
         for key in subject.keys() {
             if let Some(def) = self.get(&Symbol::from(key.as_str())) {
                 defs.push(def);
-                if subject.has_marker(key.as_str()) {
-                    markers.insert(key);
-                }
+            }
+            // A conjunct is made of the subject's marker tags, whether they have a def or not
+            if subject.has_marker(key.as_str()) {
+                markers.insert(key);
             }
         }
 
